@@ -87,7 +87,9 @@ def run(chk):
             bad_status.append(i)
         if r["margin"] < 50:
             low_margin.append(i)
-        if r["hist"] >= 1000:
+        if r["hist"] >= 2000:
+            hist["appearance_contest_history"] += 1
+        elif r["hist"] >= 1000:
             hist["long_id_history"] += 1
         if r["S"] >= 2 and r["order"] != "free" and r["order"] != "perm:" + ".".join(str(k) for k in range(r["S"])):
             nontrivial.add((r["kind"], r["hist"], r["S"], r["order"]))
